@@ -1,13 +1,283 @@
 package verifsim
 
-type hmacEngine struct{ r *Run }
+// Engine E3: the real pooled HMAC (internal/hmac, instrumented) used by 1..8
+// tasks through the seeded simulated sync.Pool; every digest is compared with
+// crypto/hmac over the task's own key and bytes.  Yields at every statement of
+// hmac.go / pool.go let the scheduler hand a recycled object to another task
+// at any point the code allows.
 
-func (e *hmacEngine) Setup(r *Run)          { e.r = r }
-func (e *hmacEngine) Env() []EnvEvent       { return nil }
-func (e *hmacEngine) Check() *Violation     { return nil }
-func (e *hmacEngine) Quiescent() bool       { return false }
-func (e *hmacEngine) Finish() *Violation    { return nil }
-func (e *hmacEngine) Stats() map[string]int { return nil }
-func (e *hmacEngine) NonTrivial() bool       { return false }
-func (e *hmacEngine) HistoryHash() uint64    { return 0 }
-func (e *hmacEngine) Describe() any         { return nil }
+import (
+	"bytes"
+	chmac "crypto/hmac"
+	"crypto/sha1" //nolint:gosec
+	"crypto/sha256"
+	"fmt"
+	"hash"
+	"strings"
+
+	"github.com/pion/stun/v3"
+	"verifrt"
+)
+
+type hmacEngine struct {
+	r       *Run
+	viol    *Violation
+	stats   map[string]int
+	nTasks  int
+	nOps    int
+	desc    []string
+	spawned bool
+	acq     int
+}
+
+func (e *hmacEngine) Stats() map[string]int { return e.stats }
+func (e *hmacEngine) NonTrivial() bool      { return e.r.Switches >= 2 || e.acq >= 2 }
+func (e *hmacEngine) HistoryHash() uint64   { return hashName(strings.Join(e.desc, " ")) }
+func (e *hmacEngine) Describe() any {
+	return map[string]any{"tasks": e.nTasks, "ops_per_task": e.nOps, "pool_mode": e.r.Sim.PoolMode, "script": e.desc}
+}
+
+func (e *hmacEngine) fail(class, f string, a ...any) {
+	if e.viol == nil {
+		e.viol = &Violation{Property: "C18", Class: class, Msg: fmt.Sprintf(f, a...)}
+		e.r.Logf("VIOLATION C18 %s: %s", class, e.viol.Msg)
+	}
+}
+
+func (e *hmacEngine) Setup(r *Run) {
+	e.r = r
+	e.stats = map[string]int{}
+	max := 4
+	if r.Tier == "thorough" {
+		max = 8
+	}
+	e.nTasks = 1 + r.Choose(max, "ntasks")
+	e.nOps = 1 + r.Choose(6, "nops")
+	r.Sim.PoolMode = []int{1, 1, 0}[r.Choose(3, "poolmode")]
+	r.Sim.RaceCheck = true
+	r.Sim.YieldInLock = false
+	r.StayWeight = []int{1, 1, 3, 10}[r.Choose(4, "stay")]
+	dens := []int{100, 50, 20}[r.Choose(3, "yield-density")]
+	if dens < 100 {
+		off := make([]bool, len(verifrt.SiteNames))
+		x := uint64(r.Choose(1<<30, "site-mask-seed"))*2654435761 + 12345
+		for i := range off {
+			x ^= x << 13
+			x ^= x >> 7
+			x ^= x << 17
+			off[i] = int(x%100) >= dens
+		}
+		r.Sim.SiteOff = off
+	}
+	r.Sim.Spawn("setup", func() {})
+}
+
+func (e *hmacEngine) drawKey() []byte {
+	r := e.r
+	var n int
+	switch r.Choose(6, "keylen-kind") {
+	case 0:
+		n = 0
+	case 1:
+		n = 63 + r.Choose(3, "keylen") // 63, 64, 65: both sides of the block
+	case 2:
+		n = 1 + r.Choose(32, "keylen")
+	case 3:
+		n = 66 + r.Choose(235, "keylen") // long keys are hashed first
+	case 4:
+		n = 20
+	default:
+		n = r.Choose(301, "keylen")
+	}
+	k := make([]byte, n)
+	s := byte(r.Choose(256, "keyseed"))
+	for i := range k {
+		k[i] = s + byte(i*31)
+	}
+	return k
+}
+
+func (e *hmacEngine) drawChunks() [][]byte {
+	r := e.r
+	var total int
+	switch r.Choose(5, "msglen-kind") {
+	case 0:
+		total = 0
+	case 1:
+		total = 1 + r.Choose(64, "msglen")
+	case 2:
+		total = 55 + r.Choose(20, "msglen") // around the sha block/padding boundary
+	case 3:
+		total = r.Choose(4097, "msglen")
+	default:
+		total = 20 + r.Choose(200, "msglen")
+	}
+	data := make([]byte, total)
+	s := byte(r.Choose(256, "msgseed"))
+	for i := range data {
+		data[i] = s ^ byte(i*7+i>>8)
+	}
+	var chunks [][]byte
+	n := 1 + r.Choose(4, "nchunks")
+	for i := 0; i < n && len(data) > 0; i++ {
+		if i == n-1 {
+			chunks = append(chunks, data)
+			data = nil
+			break
+		}
+		c := r.Choose(len(data)+1, "chunk")
+		chunks = append(chunks, data[:c])
+		data = data[c:]
+	}
+	if len(chunks) == 0 {
+		chunks = [][]byte{{}}
+	}
+	return chunks
+}
+
+func (e *hmacEngine) session(tk *verifrt.Task, sha256v bool) {
+	r := e.r
+	key := e.drawKey()
+	newRef := func() hash.Hash {
+		if sha256v {
+			return chmac.New(sha256.New, key)
+		}
+		return chmac.New(sha1.New, key)
+	}
+	name := "sha1"
+	if sha256v {
+		name = "sha256"
+	}
+	e.acq++
+	e.desc = append(e.desc, fmt.Sprintf("%s:acquire-%s(key=%d)", tk.Name, name, len(key)))
+	r.Logf("%s acquire %s keylen=%d", tk.Name, name, len(key))
+	verifrt.Yield(hsCaller)
+	var h hash.Hash
+	if sha256v {
+		h = stun.VerifAcquireSHA256(key)
+	} else {
+		h = stun.VerifAcquireSHA1(key)
+	}
+	ref := newRef()
+	rounds := 1 + r.Choose(3, "rounds")
+	for round := 0; round < rounds; round++ {
+		chunks := e.drawChunks()
+		tot := 0
+		for _, c := range chunks {
+			verifrt.Yield(hsCaller)
+			n, err := h.Write(c)
+			if err != nil || n != len(c) {
+				e.fail("write-result", "%s: Write returned (%d, %v) for %d bytes", tk.Name, n, err, len(c))
+			}
+			ref.Write(c)
+			tot += len(c)
+		}
+		nsum := 1 + r.Choose(2, "nsum")
+		for i := 0; i < nsum; i++ {
+			verifrt.Yield(hsCaller)
+			prefix := []byte{}
+			if r.Pct(30, "sum-prefix") {
+				prefix = []byte{1, 2, 3}
+			}
+			got := h.Sum(append([]byte(nil), prefix...))
+			want := ref.Sum(append([]byte(nil), prefix...))
+			e.desc = append(e.desc, fmt.Sprintf("%s:write(%d in %d)+sum", tk.Name, tot, len(chunks)))
+			if !bytes.Equal(got, want) {
+				e.fail("digest-mismatch", "%s: HMAC-%s over key of %d bytes and %d message bytes (round %d, sum %d): pooled object gave %x, crypto/hmac gives %x", tk.Name, name, len(key), tot, round, i, got, want)
+			}
+		}
+		if h.Size() != ref.Size() || h.BlockSize() != ref.BlockSize() {
+			e.fail("size-mismatch", "%s: Size/BlockSize %d/%d differ from crypto/hmac %d/%d", tk.Name, h.Size(), h.BlockSize(), ref.Size(), ref.BlockSize())
+		}
+		if round+1 < rounds {
+			verifrt.Yield(hsCaller)
+			if r.Pct(70, "reset") {
+				h.Reset()
+				ref.Reset()
+				e.desc = append(e.desc, tk.Name+":reset")
+			}
+		}
+	}
+	verifrt.Yield(hsCaller)
+	if sha256v {
+		stun.VerifPutSHA256(h)
+	} else {
+		stun.VerifPutSHA1(h)
+	}
+	e.desc = append(e.desc, tk.Name+":put")
+	r.Logf("%s put", tk.Name)
+}
+
+// integrity goes through the production call path MessageIntegrity.AddTo /
+// Check -> newHMAC -> AcquireSHA1 ... PutSHA1.
+func (e *hmacEngine) integrity(tk *verifrt.Task) {
+	r := e.r
+	key := e.drawKey()
+	if len(key) == 0 {
+		key = []byte("k")
+	}
+	var id [stun.TransactionIDSize]byte
+	id[0] = byte(tk.ID)
+	id[1] = byte(r.Choose(256, "idb"))
+	soft := strings.Repeat("x", r.Choose(120, "software-len"))
+	e.desc = append(e.desc, fmt.Sprintf("%s:integrity(key=%d,soft=%d)", tk.Name, len(key), len(soft)))
+	verifrt.Yield(hsCaller)
+	m, err := stun.Build(stun.NewTransactionIDSetter(id), stun.BindingRequest, stun.NewSoftware(soft), stun.MessageIntegrity(key))
+	if err != nil {
+		e.fail("integrity-build", "%s: Build with MESSAGE-INTEGRITY failed: %v", tk.Name, err)
+		return
+	}
+	if len(m.Raw) < 24 {
+		e.fail("integrity-build", "%s: message too short", tk.Name)
+		return
+	}
+	ref := chmac.New(sha1.New, key)
+	ref.Write(m.Raw[:len(m.Raw)-24])
+	want := ref.Sum(nil)
+	if got := m.Raw[len(m.Raw)-20:]; !bytes.Equal(got, want) {
+		e.fail("integrity-mismatch", "%s: MESSAGE-INTEGRITY value %x differs from crypto/hmac %x (key %d bytes)", tk.Name, got, want, len(key))
+	}
+	verifrt.Yield(hsCaller)
+	if err := stun.MessageIntegrity(key).Check(m); err != nil {
+		e.fail("integrity-check", "%s: Check of a freshly built message failed: %v", tk.Name, err)
+	}
+}
+
+func (e *hmacEngine) Env() []EnvEvent { return nil }
+
+func (e *hmacEngine) Check() *Violation { return e.viol }
+
+func (e *hmacEngine) Quiescent() bool {
+	if e.spawned {
+		return false
+	}
+	e.spawned = true
+	r := e.r
+	for i := 0; i < e.nTasks; i++ {
+		r.Sim.Spawn(fmt.Sprintf("H%d", i), func() {
+			tk := r.Sim.Cur()
+			for j := 0; j < e.nOps; j++ {
+				switch r.Pick([]int{5, 3, 2}, "hmac-op") {
+				case 0:
+					e.session(tk, false)
+				case 1:
+					e.session(tk, true)
+				case 2:
+					e.integrity(tk)
+				}
+			}
+		}, r.Sim.Tasks[0])
+	}
+	return true
+}
+
+func (e *hmacEngine) Finish() *Violation {
+	if e.viol != nil {
+		return e.viol
+	}
+	for _, tk := range e.r.Sim.Unfinished() {
+		return &Violation{Property: "C18", Class: "task-stuck", Msg: fmt.Sprintf("task %s is %v at %s", tk.Name, tk.State, verifrt.SiteName(tk.Site))}
+	}
+	e.stats["acquisitions"] = e.acq
+	return nil
+}
